@@ -1167,6 +1167,9 @@ class Interp:
             return self.dict_get(base, idx, node)
         if isinstance(base, str):
             return base[idx]
+        if base is None:
+            self.P.check("no-exception[%s]" % self.site(node), False, "subscript of None: TypeError")
+            raise PyRaise("TypeError")
         raise Unsupported("subscript on %r" % (type(base).__name__,))
 
     def dict_get(self, d, key, node=None, default=None, has_default=False):
@@ -1238,6 +1241,9 @@ class Interp:
             raise Unsupported("call to unmodelled external %s" % fn.dotted)
         if callable(fn):
             return fn(self, *args, **kwargs)
+        if fn is None:
+            self.P.check("no-exception[%s]" % self.site(node), False, "call of None: TypeError")
+            raise PyRaise("TypeError")
         raise Unsupported("call of %r" % (fn,))
 
     def instantiate(self, cls, args, kwargs, node=None):
